@@ -141,6 +141,8 @@ SUBCHECKS = {
         rule="case = multiset of stream types; non-trivial = at least one hot and one cold stream with overlapping shifted ranges; "
              "outcomes = distinct (Qh,Qc,Qr)",
         cases=seam_cases, run=seam_run,
+        requires=("OpenPinch.analysis.problem_table_analysis:get_process_heat_cascade", "OpenPinch.analysis.problem_table_analysis:set_zonal_targets",
+                  "OpenPinch.analysis.problem_table_analysis:get_heat_recovery_target_from_pt"),
         bound=lambda t: "multisets of <=3 streams, K=4 lattice, 2 CP, dt {0,d/2}" if t == "quick" else "multisets of <=3 streams, K=5 lattice, 2 CP, dt {0,d/2,d}",
     ),
     "service": SubCheck(
